@@ -94,12 +94,13 @@ pub enum K {
     MExtendLie,
     MExtendPanic,
     MUninitApi,
+    MPutUnder,
 }
 pub const ALL_K: &[K] = &[
     K::Root, K::BClone, K::BSlice, K::BSliceIncl, K::BSliceRef, K::BSliceRefForeign, K::BSplitOff, K::BSplitTo, K::BTruncate, K::BClear,
     K::BAdvance, K::BCopyToBytes, K::BTryIntoMut, K::BIntoMut, K::BIntoVec, K::BDrop, K::MSplitOff, K::MSplitTo, K::MSplit, K::MTruncate,
     K::MClear, K::MAdvance, K::MResize, K::MReserve, K::MTryReclaim, K::MExtend, K::MPutU8, K::MWrite, K::MFillSpare, K::MUnsplit,
-    K::MFreeze, K::MIntoVec, K::MClone, K::MCopyToBytes, K::MDrop, K::MPutBytes, K::MPutBuf, K::MChunkMut, K::MWriteStr, K::MExtendIter, K::BIntoIter, K::MIntoIter, K::BSliceBounds, K::MExtendLie, K::MExtendPanic, K::MUninitApi,
+    K::MFreeze, K::MIntoVec, K::MClone, K::MCopyToBytes, K::MDrop, K::MPutBytes, K::MPutBuf, K::MChunkMut, K::MWriteStr, K::MExtendIter, K::BIntoIter, K::MIntoIter, K::BSliceBounds, K::MExtendLie, K::MExtendPanic, K::MUninitApi, K::MPutUnder,
 ];
 pub fn k_from_str(s: &str) -> Option<K> {
     ALL_K.iter().cloned().find(|k| format!("{:?}", k) == s)
@@ -238,6 +239,8 @@ pub struct World {
     /// per-op coverage flags (which reserve_inner branch etc.), filled from hook descriptors
     pub cover: u64,
     pub huge_seen: bool,
+    /// number of steps of this history that panicked (caught)
+    pub panics_seen: u32,
 }
 
 fn slot_none() -> Option<Slot> {
@@ -259,6 +262,7 @@ impl World {
             last: Observed::default(),
             cover: 0,
             huge_seen: false,
+            panics_seen: 0,
         }
     }
 
@@ -1246,8 +1250,67 @@ impl World {
                     }
                 }
             }
+            K::MPutUnder => {
+                // BufMut::put with a source whose remaining() under-reports (claims at most `a`) while chunk() hands out
+                // all 16 bytes it has: what is appended is unspecified (a prefix of the source's bytes), memory safety is not
+                struct Under {
+                    data: [u8; 16],
+                    pos: usize,
+                    claim: usize,
+                    fuel: core::cell::Cell<u32>,
+                }
+                impl Buf for Under {
+                    fn remaining(&self) -> usize {
+                        let f = self.fuel.get();
+                        self.fuel.set(f + 1);
+                        if f > 200 {
+                            panic!("under-reporting source: out of fuel");
+                        }
+                        (16 - self.pos).min(self.claim)
+                    }
+                    fn chunk(&self) -> &[u8] {
+                        &self.data[self.pos..]
+                    }
+                    fn advance(&mut self, cnt: usize) {
+                        self.pos = (self.pos + cnt).min(16);
+                    }
+                }
+                let claim = op.a;
+                let before = self.model(s).clone();
+                let r = self.call(|w| {
+                    let mut src = Under { data: [0x6b; 16], pos: 0, claim, fuel: core::cell::Cell::new(0) };
+                    w.m(s).put(&mut src)
+                });
+                if r.is_err() {
+                    panicked = true;
+                    expect_panic = true; // a panic is an allowed outcome with a misbehaving source
+                }
+                let (readable, cur) = {
+                    let h = &self.slots[s].as_ref().unwrap().h;
+                    let (p, l) = (h.ptr(), h.len());
+                    let readable = l == 0 || oracle::find_live(p).map_or(false, |bi| {
+                        let b = oracle::blocks()[bi];
+                        p + l <= b.user + b.size
+                    });
+                    (readable, if readable { h.bytes().to_vec() } else { vec![] })
+                };
+                let consistent = readable && cur.len() >= before.len() && cur.len() <= before.len() + 16 && cur[..before.len()] == before[..] && cur[before.len()..].iter().all(|&b| b == 0x6b);
+                if consistent {
+                    *self.model(s) = cur;
+                } else {
+                    if self.check {
+                        self.vio("C02", "put-under-state", format!("after put() from a source that under-reports remaining() the handle is not a consistent value (readable: {}, len {}, had {})", readable, cur.len(), before.len()));
+                    }
+                    if readable {
+                        *self.model(s) = cur;
+                    }
+                }
+            }
         }
         self.last.panicked = panicked;
+        if panicked {
+            self.panics_seen += 1;
+        }
         if !self.check {
             return;
         }
@@ -1269,7 +1332,7 @@ impl World {
                     self.vio("C13", "MTryReclaim-panic", format!("try_reclaim({}) panicked; it must answer true or false", op.a));
                 }
             }
-            if panicked && op.k != K::MExtendPanic {
+            if panicked && op.k != K::MExtendPanic && op.k != K::MPutUnder {
                 // C13: every handle, including the target, is intact (only checkable for calls that
                 // borrow the handle; a consuming call that panics has lost it, which is reported above)
                 let post = self.snaps();
